@@ -13,7 +13,7 @@ Separate Extraction RW.run RW.spec_ok RW.valid_op RWStack.stack_run RWStack.lowe
   Groups.exec Groups.flatten Groups.checked Groups.run_trace
   Parser.parse Grammar.bnf_parse
   Inject.value Inject.resolve Inject.apply_fields Inject.register Inject.register_invalid
-  Escape.query Escape.query_trim Escape.query_unescape_acc Escape.query_bool Escape.query_int Escape.parse_int Escape.cookie_roundtrip Query.query_get Query.parse_query
+  Escape.query Escape.query_trim Escape.query_unescape_acc Escape.query_bool Escape.query_int Escape.parse_int Escape.cookie_roundtrip Query.query_get Query.parse_query Query.query_strings
   Static.static_decide Static.normalize_prefix Static.has_prefix Router.split_slash
   Render.run_hops Render.render_ops Render.fresh Render.get_hdr Render.charset_of Render.s_ct
   RouteSpec.valid RouteSpec.spec_winner RouteSpec.all_flats RouteSpec.derivs.
